@@ -423,53 +423,47 @@ pub fn number_to_precision(
 
     let precision = args.first().map(|v| v.to_number() as i32).unwrap_or(1);
 
-    if !(1..=100).contains(&precision) {
-        return Err(JsError::range_error(
-            "toPrecision() argument must be between 1 and 100",
-        ));
-    }
-
     if !n.is_finite() {
         return Ok(Guarded::unguarded(JsValue::String(JsString::from(
             format_number_js(n),
         ))));
     }
 
-    let result = format!("{:.prec$e}", n, prec = (precision - 1) as usize);
-    // Parse and reformat to match JS behavior
-    let parts: Vec<&str> = result.split('e').collect();
-    if let [mantissa_str, exp_str] = parts.as_slice() {
-        let mantissa = mantissa_str.parse::<f64>().unwrap_or(0.0);
-        let exp: i32 = exp_str.parse().unwrap_or(0);
-
-        // If exponent is small enough, use fixed notation
-        if exp >= 0 && exp < precision {
-            let decimals = precision - 1 - exp;
-            if decimals >= 0 {
-                return Ok(Guarded::unguarded(JsValue::String(JsString::from(
-                    format!("{:.prec$}", n, prec = decimals as usize),
-                ))));
-            }
-        } else if (-4..0).contains(&exp) {
-            // For small numbers, use fixed notation
-            let decimals = precision - 1 - exp;
-            if (0..=100).contains(&decimals) {
-                return Ok(Guarded::unguarded(JsValue::String(JsString::from(
-                    format!("{:.prec$}", n, prec = decimals as usize),
-                ))));
-            }
-        }
-
-        // Use exponential notation
-        let exp_sign = if exp >= 0 { "+" } else { "" };
-        return Ok(Guarded::unguarded(JsValue::String(JsString::from(
-            format!("{}e{}{}", mantissa, exp_sign, exp),
-        ))));
+    if !(1..=100).contains(&precision) {
+        return Err(JsError::range_error(
+            "toPrecision() argument must be between 1 and 100",
+        ));
     }
 
-    Ok(Guarded::unguarded(JsValue::String(JsString::from(
-        format!("{}", n),
-    ))))
+    let (digits, exponent) = if n == 0.0 {
+        (vec![b'0'; precision as usize], 0)
+    } else {
+        round_to_precision(n, precision as usize)
+    };
+
+    // Exponent notation outside 1e-6 <= |n| < 10^precision
+    if exponent < -6 || exponent >= precision {
+        let result = format_exponent_notation(n < 0.0, &digits, exponent);
+        return Ok(Guarded::unguarded(JsValue::String(JsString::from(result))));
+    }
+
+    let mut result = String::new();
+    if n < 0.0 {
+        result.push('-');
+    }
+    if exponent >= 0 {
+        let int_len = exponent as usize + 1;
+        result.extend(digits.iter().take(int_len).map(|d| *d as char));
+        if digits.len() > int_len {
+            result.push('.');
+            result.extend(digits.iter().skip(int_len).map(|d| *d as char));
+        }
+    } else {
+        result.push_str("0.");
+        result.extend(core::iter::repeat_n('0', (-(exponent + 1)) as usize));
+        result.extend(digits.iter().map(|d| *d as char));
+    }
+    Ok(Guarded::unguarded(JsValue::String(JsString::from(result))))
 }
 
 /// Lay out significant digits and a decimal exponent as `d.ddde±x`
